@@ -213,6 +213,10 @@ func runStreamWith(doc []byte, rs *ReaderScn, sharedIP *commonmark.InlineParser)
 		if rd.stdFile != nil { // the parse ended in a panic before the caller got to close its file
 			rd.stdFile.Close()
 		}
+		if rd.commSet {
+			restoreComm()
+			rd.commSet = false
+		}
 	}()
 	p := commonmark.NewBlockParser(rd.asReader())
 	rd.afterConstruct()
